@@ -32,7 +32,9 @@ EXPLANATION = (
     "buffers (no size-based shortcut). All executions are abstract execution (the repository's own "
     "constant-propagation interpreter over the clang AST: configuration values are concrete, file "
     "contents and buffers are Unknown, callees at the boundary of the function are hooked and recorded as "
-    "events, every path is enumerated). Decides these clauses, not value/null-position equality (the "
+    "events, every path is enumerated). (7) tag bytes built by OR-ing shifted fields (Snappy / LZ4 "
+    "elements, RLE run headers, Thrift field and list headers) hold every field value the guards on the "
+    "path admit. Decides these clauses, not value/null-position equality (the "
     "multi-batch level layout is a known value-level limitation described in DESIGN.md).")
 
 PW = "src/writer/page_writer.c"
@@ -54,6 +56,10 @@ def run(ctx):
     ctx.clause("C01.4 level encoder never pads mid-stream; PLAIN sizes agree")
     ctx.clause("C01.5 PLAIN BYTE_ARRAY accepts exactly fitting pages (skeleton with abstract lengths)")
     ctx.clause("C01.6 the codec tag alone decides raw vs codec stream, in compress_data and in decompress_page")
+    ctx.clause("C01.7 tag bytes written by the compressors, the level encoder and the Thrift encoder hold every field value their guards admit")
+    from ..rules import fieldfit
+    nff, nffd = fieldfit.check(ctx, P.funcs_in("src/compression/snappy.c", "src/compression/lz4.c", "src/encoding/rle.c", "src/thrift/thrift_encode.c"))
+    ctx.floor("C01 packed tag bytes decided", nffd, 8)
     from ..rules import codecrepr
     codecrepr.writer(ctx)
     codecrepr.reader(ctx)
